@@ -53,8 +53,13 @@ def check(C, fn, name, dom, loop_leaves, facts0, rep):
         # comparison outcome on this path
         sign = None
         for c in lf.pc:
-            if isinstance(c, alg.Cond) and any(str(x).startswith('cb') for x in sp.sympify(c.a).free_symbols) and sp.sympify(c.b) == 0:
+            if not isinstance(c, alg.Cond):
+                continue
+            if any(str(x).startswith('cb') for x in sp.sympify(c.a).free_symbols) and sp.sympify(c.b) == 0:
                 sign = {'>': 'gt', '<=': 'le', '>=': 'ge', '<': 'lt'}.get(c.rel(), sign)
+            elif any(str(x).startswith('cb') for x in sp.sympify(c.b).free_symbols) and sp.sympify(c.a) == 0:
+                # 0 < cmp(..) is cmp(..) > 0
+                sign = {'<': 'gt', '>=': 'le', '<=': 'ge', '>': 'lt'}.get(c.rel(), sign)
         if sign is None:
             continue
         # equal keys may go either way (the property asks for a sorted result, not for stability)
@@ -63,6 +68,16 @@ def check(C, fn, name, dom, loop_leaves, facts0, rep):
         if sign == 'lt':
             sign = 'le'
         a0, a1 = elem_index(C, cbs[0], siz), elem_index(C, cbs[1], siz)
+        # the two ends of a binary search are the two integer loop variables; the lower end is the one that starts at a constant
+        # (0 or 1), whatever the variables are called
+        ints = [r for r, v in lf.loop_cur.items() if not isinstance(v, Ptr)]
+        inits = getattr(lf, 'loop_init', {})
+        if len(ints) == 2 and not any(isinstance(v, Ptr) for v in lf.loop_cur.values()):
+            const = [r for r in ints if inits.get(r) is not None and not isinstance(inits.get(r), Ptr) and sp.sympify(inits[r]).is_Integer]
+            if len(const) == 1:
+                byname = dict(byname)
+                byname[tab['lo']] = const[0]
+                byname[tab['hi']] = [r for r in ints if r != const[0]][0]
         if tab['lo'] in byname and tab['hi'] in byname and not isinstance(lf.loop_cur[byname[tab['lo']]], Ptr):
             # ---- binary search iteration
             nb += 1
@@ -133,7 +148,7 @@ def check(C, fn, name, dom, loop_leaves, facts0, rep):
     for lf in loop_leaves:
         cbs = [e for e in lf.calls if isinstance(e, Effect) and e.kind == 'callback']
         sw = [e for e in lf.calls if isinstance(e, Effect) and e.name == 'a_swap']
-        if len(cbs) == 2 and not sw and not any(k for k in lf.loop_cur if var_of(fn, k) in (tab['lo'], tab['hi']) and not isinstance(lf.loop_cur[k], Ptr)):
+        if len(cbs) == 2 and not sw and any(isinstance(v, Ptr) for v in lf.loop_cur.values()):
             le_ = any(isinstance(c, alg.Cond) and any(str(x).startswith('cb') for x in sp.sympify(c.a).free_symbols) and c.rel() == '<=' for c in lf.pc)
             if le_:
                 probs.append('the bubble walk continues although the neighbours are in order')
